@@ -90,6 +90,37 @@ def nested_duplicate_cases(g, n):
                 members.append((e, et))
         toks = ["G", outer.__name__, "-", str(len(members))] + [t for m in members for t in m[1]]
         out.append((o, toks))
+    # equal-valued members side by side: [a, y, a', z, a''] then the LATER ones are popped by name: the named object must go,
+    # the remaining ones keep their order
+    for _ in range(n):
+        outer = g.classes[r.choice(free)]
+        lname = r.choice(g.leaf_names)
+        row = g.rows[lname]
+        val, vt = g.value(row)
+        mk = lambda: bromgen.construct(lambda: g.classes[lname](val))
+        copies = [mk() for _i in range(r.choice([2, 3]))]
+        others = [g.leaf() for _i in range(r.choice([1, 2]))]
+        if any(isinstance(o, bromgen.Failed) for o in copies) or any(isinstance(o[0], bromgen.Failed) for o in others):
+            continue
+        xt = ["D", lname, "-"] + vt
+        members = [(c, xt) for c in copies] + list(others)
+        r.shuffle(members)
+        o = bromgen.construct(lambda: outer([m[0] for m in members]))
+        if isinstance(o, bromgen.Failed):
+            continue
+        for _k in range(r.choice([1, 2])):
+            listed = [m[0] for m in members]
+            later = [c for c in copies if any(c is x for x in listed) and any(d is not c and any(d is x for x in listed[:[i for i, x in enumerate(listed) if x is c][0]]) for d in copies)]
+            if not later:
+                break
+            which = r.choice(later)
+            key = [k for k, v in o.__dict__.items() if v is which and "_avp" in k and k != "_avps"]
+            if not key:
+                break
+            o.pop(key[0])
+            members = [m for m in members if m[0] is not which]
+        toks = ["G", outer.__name__, "-", str(len(members))] + [t for m in members for t in m[1]]
+        out.append((o, toks))
     return out
 
 
